@@ -50,6 +50,8 @@ class SessionModel(object):
             return ('value', True)
         if k == 'close':
             self.connected = False
+            if op.get('fail'):
+                return ('any',)      # the transport's close() raised: whatever close() does with that, the device is closed
             return ('value', None)
         if k == 'available':
             return ('value', self.connected)
@@ -63,18 +65,30 @@ class SessionModel(object):
             return ('any',)
         if k == 'ss_create':
             self.pending_ss = op
+            self.ss_taken = 0
             return ('value', None)
-        if k == 'ss_consume':
+        if k in ('ss_consume', 'ss_next'):
             cop = getattr(self, 'pending_ss', None)
-            self.pending_ss = None
+            if k == 'ss_consume':
+                self.pending_ss = None
             if cop is None:
                 return ('value', [])
             if not self.connected:
+                self.pending_ss = None
                 return ('exc', ('AdbConnectionError',), None)
             ps = shell_payloads(d, cop['cmd'])
             if cop.get('decode', True):
                 ps = [p.decode('utf8', 'backslashreplace') for p in ps]
-            return ('value', ps)
+            t = getattr(self, 'ss_taken', 0)
+            if k == 'ss_next':
+                self.ss_taken = t + op.get('n', 1)
+                if self.ss_taken > len(ps):
+                    self.pending_ss = None
+                return ('value', ps[t:t + op.get('n', 1)])
+            return ('value', ps[t:])
+        if k == 'ss_drop':
+            self.pending_ss = None
+            return ('any',)
         path = op.get('path')
         if k in ('list', 'stat', 'pull', 'push') and not path:
             return ('exc', ('DevicePathInvalidError',), None)
@@ -182,7 +196,8 @@ def check_session(run, scn, actor=0, model=None, relaxed_from=None):
         if rec.get('exc') in ('SimAbort', 'SimHang'):
             break
         if exp[0] == 'any':
-            m.connected = bool(rec['ok'] and rec['value'])
+            if op['op'] == 'connect':
+                m.connected = bool(rec['ok'] and rec['value'])
             continue
         if exp[0] == 'exc':
             if rec['ok']:
